@@ -187,8 +187,12 @@ def _selfcheck_export(L, b, res, out):
 
 
 def _check_calibration(case, out):
-    """hand-written program + the exact representation of chosen bindings; any mismatch is a harness error
-    (the conventions this check relies on do not hold)."""
+    """hand-written, shadowing-free program + the exact representation of chosen bindings.
+
+    Harness errors (the observation machinery does not work as this check assumes): lian fails, an occurrence
+    has no Symbol row, the declaration row an expectation names does not exist in the GIR with that operation
+    and line, memory and exported bundles differ.  A Symbol that is bound to something else than the expected
+    row is the property itself on a trivial program -> an ordinary discrepancy (signature 'calibration')."""
     L, P, M, J, T = _helpers()
     from harness import lianrun
     b, res = L.analyze(case["files"], case["lang"], export=True)
@@ -198,6 +202,22 @@ def _check_calibration(case, out):
             return
         for exp in case["expect"]:
             unit, line, name = exp["unit"], exp["line"], exp["name"]
+            want = exp["binding"]
+            if want["kind"] == "decl":
+                rows = [r for r in b.rows.values() if r["unit"] == want["unit"] and r["op"] == want["op"]
+                        and r["line"] == want["decl_line"]]
+                if not rows:
+                    out.errors.append("calibration %s: the GIR of %s has no %s row at line %d" % (
+                        case.get("name"), want["unit"], want["op"], want["decl_line"]))
+                    continue
+                if not any(b.owner(r["stmt_id"])[:2] == (want["owner"], want["owner_line"]) for r in rows):
+                    out.errors.append("calibration %s: the %s row at %s:%d is not owned by %s@%d (GIR parent chain)" % (
+                        case.get("name"), want["op"], want["unit"], want["decl_line"], want["owner"], want["owner_line"]))
+                    continue
+            elif want["kind"] == "module":
+                if want["path"] not in b.modules.values():
+                    out.errors.append("calibration %s: module table has no entry for %s" % (case.get("name"), want["path"]))
+                    continue
             syms = b.at_target(unit, exp["target"], name) if exp.get("target") else b.at_line(unit, line, name)
             if not syms:
                 out.errors.append("calibration %s: no Symbol row for %s:%d %s" % (case.get("name"), unit, line, name))
@@ -210,10 +230,11 @@ def _check_calibration(case, out):
                                 "owner_line": d["owner"][1]})
                 elif d["kind"] == "module":
                     got.update({"path": d["path"]})
-                want = exp["binding"]
                 if any(got.get(k) != v for k, v in want.items()):
-                    out.errors.append("calibration %s: %s:%d %s is represented as %s, expected %s" % (
-                        case.get("name"), unit, line, name, got, want))
+                    out.discrepancies.append(((case["lang"], "calibration", exp.get("label", want["kind"]),
+                                               "%s:%d:%s" % (unit, line, name)),
+                                              "calibration %s: %s:%d `%s` is bound to %s, expected %s" % (
+                                                  case.get("name"), unit, line, name, got, want)))
         _selfcheck_export(L, b, res, out)
     finally:
         lianrun.cleanup(res)
